@@ -112,6 +112,24 @@ def valid {V} (sig : Sig V) (c : Call V) : Bool :=
   (keys c.kwargs).all (fun n => !((sig.take c.args.length).map (·.name)).contains n) &&
   allBound c sig 0
 
+/-! ### methods with a `**kwargs` catch-all -/
+
+/-- the extra keyword arguments of a call — names that are not parameters: what `**kwargs` catches -/
+def extras {V} (sig : Sig V) (c : Call V) : List (Str × V) :=
+  c.kwargs.filter (fun kv => !(sig.map (·.name)).contains kv.1)
+
+/-- the call without its extra keyword arguments -/
+def named {V} (sig : Sig V) (c : Call V) : Call V :=
+  { c with kwargs := c.kwargs.filter (fun kv => (sig.map (·.name)).contains kv.1) }
+
+/-- Python accepts the call of a method whose signature ends in `**kwargs`: keyword names distinct, and the named part is a
+valid call -/
+def validKw {V} (sig : Sig V) (c : Call V) : Bool :=
+  decide (keys c.kwargs).Nodup && valid sig (named sig c)
+
+/-- Python's binding of such a call: the named parameters, then the extras (flattened out of the catch-all dictionary) -/
+def bindingKw {V} (sig : Sig V) (c : Call V) : List (Str × V) := binding sig (named sig c) ++ extras sig c
+
 /-! ### sub-cache naming and the control keywords -/
 
 /-- `subcache_name = method.__name__` (+ `'.' + version`) -/
